@@ -75,6 +75,12 @@ def verify_case(repo, qualname, case_index, timeout_ms=10000, want_models=True):
                 from .pandas_model import dtype_axioms
                 ax += dtype_axioms(with_ints=solve.uses_decl(fs_, 'val_of_int'))
             r = solve.discharge(o, timeout_ms=timeout_ms, axioms=ax, want_model=want_models)
+            if r.status == 'unknown':
+                # second pass with a generous budget: a slow query must not flip the verdict when
+                # all cores are busy
+                r2 = solve.discharge(o, timeout_ms=timeout_ms * 6, axioms=ax, want_model=want_models)
+                r2.detail = ('retried with %ds budget. ' % (timeout_ms * 6 // 1000)) + (r2.detail or '')
+                r = r2
             out['results'].append(r.to_dict())
         out['notes'] = ex.notes
         out['assumed'] = sorted(set(ex.assumed_log))
